@@ -44,6 +44,10 @@ def generate(tier, seed, work, stats):
             d = singles[j]
             cases.append(dict(prodsA=c["prods"], prodsB=d["prods"], vpoolA=c["vpool"], vpoolB=d["vpool"] if j != i else c["vpool"],
                               tpool="ab", same=(j == i), family="CFGGen-pairs", L=4))
+            if j != i and (i + j) % 11 == 0:
+                # one operand is a grammar object without start symbol (empty language)
+                cases.append(dict(prodsA=c["prods"], prodsB=d["prods"], vpoolA=c["vpool"], vpoolB=d["vpool"], tpool="ab",
+                                  same=False, nostart="AB"[(i + j) // 11 % 2], family="CFGGen-pairs-no-start-symbol", L=4))
             if j != i and (i + j) % 7 == 0:
                 cases.append(dict(prodsA=c["prods"], prodsB=d["prods"], vpoolA="upper", vpoolB="other", tpool="ab",
                                   same=False, family="CFGGen-pairs-disjoint-variables", L=4))
@@ -77,11 +81,11 @@ def with_answers(ev, r, tpool):
 
 def replay(case):
     from harness import cfgh, guard
-    a, sa, ta = cfgh.make(case["prodsA"], case["vpoolA"], case["tpool"])
+    a, sa, ta = cfgh.make(case["prodsA"], case["vpoolA"], case["tpool"], nostart=case.get("nostart") == "A")
     if case["same"]:
         b, sb, tb = a, sa, ta
     else:
-        b, sb, tb = cfgh.make(case["prodsB"], case["vpoolB"], case.get("tpoolB", case["tpool"]))
+        b, sb, tb = cfgh.make(case["prodsB"], case["vpoolB"], case.get("tpoolB", case["tpool"]), nostart=case.get("nostart") == "B")
     A, B = cfgh.project(a), cfgh.project(b)
     Lw = case["L"]
     evs = [{"op": "new", "G": A, "start": sa, "prods": ta}, {"op": "new", "G": B, "start": sb, "prods": tb}]
